@@ -288,6 +288,10 @@ func Consensus(trees <-chan Trees, cutoff float64) (*Tree, error) {
 			return nil, curtree.Err
 		}
 
+		// The two branches connected to the root of a rooted tree define the same
+		// bipartition: it must be counted once, with the sum of their lengths
+		curtree.Tree.UnRoot()
+
 		if err = curtree.Tree.ReinitIndexes(); err != nil {
 			return nil, err
 		}
